@@ -285,6 +285,7 @@ type fnTr struct {
 	pairMemo int // 0 unknown, 1 pair result, 2 not
 	curRest  []ast.Stmt // the statements that follow the one being translated, in its list
 	topEnd   func() string // what falling off the end of the function body is
+	qname    string        // the function being translated, Recv.Name for methods
 	wb       bool       // write-back mode (inout.go, wb.go): in-place updates of a value tree
 	nextRebuild *rebuildSpec // consumed by the next loop(): the collection it ranges over is rebuilt
 	wbAfterCall []*lvar      // set by selfArgs: the locals that received the in-out results of the recursive call
@@ -640,7 +641,11 @@ func (t *fnTr) expr(e ast.Expr) string {
 			if kc, ok := unparen(x.X).(*ast.CallExpr); ok && len(kc.Args) == 0 {
 				if ks, ok := kc.Fun.(*ast.SelectorExpr); ok && ks.Sel.Name == "Kind" {
 					if vc, ok := unparen(ks.X).(*ast.CallExpr); ok && len(vc.Args) == 1 {
-						if pk, nm, isPkg := t.pkgCall(vc); isPkg && pk == "reflect" && nm == "ValueOf" && t.kindOfExpr(vc.Args[0]) == "val" {
+						if pk, nm, isPkg := t.pkgCall(vc); isPkg && pk == "reflect" && (nm == "ValueOf" || nm == "TypeOf") && t.kindOfExpr(vc.Args[0]) == "val" {
+							if nm == "TypeOf" {
+								// reflect.TypeOf(nil) is the nil Type: its Kind() panics
+								t.guards = append(t.guards, "if (match "+t.expr(vc.Args[0])+" with VNil => true | _ => false end) then Crash else")
+							}
 							var r string
 							switch types.ExprString(x.Y) {
 							case "reflect.Map":
@@ -1463,6 +1468,10 @@ func (t *fnTr) externCall(x *ast.CallExpr) (*extCall, bool) {
 		rty = "(option (" + rty + " * " + tupleType(ec.stateOut) + "))"
 	case len(ec.results) == 1 && len(ec.outArgs) == 0:
 		rty = fnCoqType(ec.results[0])
+	case len(ec.results) == 2 && ec.results[1] == "err" && len(ec.outArgs) == 0 && pairCalleeFuncs[t.qname] && t.calleeIsPair(fn):
+		// the callee returns a value TOGETHER with its error and this function may use both: the pair, None = it panicked
+		ec.rich = "optpair"
+		rty = "(option (" + fnCoqType(ec.results[0]) + " * (option err)))"
 	case len(ec.results) == 2 && ec.results[1] == "err" && len(ec.outArgs) == 0:
 		rty = "(res " + fnCoqType(ec.results[0]) + ")"
 	case len(ec.results) == 0 && len(ec.outArgs) > 0:
@@ -1496,6 +1505,9 @@ func (t *fnTr) externCall(x *ast.CallExpr) (*extCall, bool) {
 			name = "ext_" + n.Obj().Name() + "_" + fn.Name()
 		}
 	}
+	if ec.rich == "optpair" {
+		name += "_pair" // the same callee seen as res T by the callers that do not use the value beside an error
+	}
 	typ := strings.Join(append(tys, rty), " -> ")
 	found := false
 	for _, e := range *t.externs {
@@ -1506,6 +1518,36 @@ func (t *fnTr) externCall(x *ast.CallExpr) (*extCall, bool) {
 	}
 	ec.term = "(" + name + " " + strings.Join(args, " ") + ")"
 	return ec, true
+}
+
+// pairCalleeFuncs: functions that may use the value a (T, error) callee returns beside a non-nil error; their calls of
+// callees that return such pairs are typed option (T * option err) instead of res T
+var pairCalleeFuncs = map[string]bool{"AnyXml": true, "AnyXmlIndent": true}
+
+// calleeIsPair: does the package function fn return a non-zero value together with a non-nil error expression
+// (the criterion of pairResult, applied to the callee)?
+func (t *fnTr) calleeIsPair(fn *types.Func) bool {
+	for _, f := range t.p.files {
+		for _, d := range f.Decls {
+			fd, ok := d.(*ast.FuncDecl)
+			if !ok || fd.Body == nil || t.p.info.Defs[fd.Name] != types.Object(fn) {
+				continue
+			}
+			pair := false
+			ast.Inspect(fd.Body, func(n ast.Node) bool {
+				if r, ok := n.(*ast.ReturnStmt); ok && len(r.Results) == 2 {
+					if !t.isZeroExpr(r.Results[0]) && !t.p.info.Types[r.Results[1]].IsNil() {
+						if be, ok := unparen(r.Results[0]).(*ast.BinaryExpr); !ok || be.Op != token.LAND {
+							pair = true
+						}
+					}
+				}
+				return true
+			})
+			return pair
+		}
+	}
+	return false
 }
 
 // calleeStoresInto: does the body of the package function fn contain a store p[k] = v into its i-th parameter?
@@ -2446,7 +2488,11 @@ func (t *fnTr) retExpr(x *ast.ReturnStmt) string {
 	if len(t.resKind) == 2 && t.resKind[1] == "err" && len(x.Results) == 1 {
 		if c, ok := x.Results[0].(*ast.CallExpr); ok {
 			mark := len(t.guards)
-			if ec, ok := t.externCall(c); ok && len(ec.results) == 2 && ec.results[1] == "err" && ec.results[0] == t.resKind[0] && len(ec.stateOut) == 0 {
+			if ec, ok := t.externCall(c); ok && len(ec.results) == 2 && ec.results[1] == "err" && ec.results[0] == t.resKind[0] && len(ec.stateOut) == 0 && ec.rich == "" {
+				if t.pairResult() {
+					// this function returns its value together with its error: the callee's (value or error) as such a pair
+					return t.wrap(mark, "match "+ec.term+" with Ok v => Ret "+t.withState("(v, None)")+" | Err e => Ret "+t.withState("("+fnZero(t.resKind[0])+", Some e)")+" | Panic => Crash end")
+				}
 				return t.wrap(mark, "match "+ec.term+" with Ok v => Ret "+t.withState("(Ok v)")+" | Err e => Ret "+t.withState("(Err e)")+" | Panic => Crash end")
 			}
 		}
@@ -3031,6 +3077,10 @@ func (t *fnTr) assign(x *ast.AssignStmt, next func() string) string {
 						return t.wrap(mark, "match "+ec.term+" with None => Crash | Some (Panic, _) => Crash | Some (rr_, "+tuplePat(ec.stateOut)+") =>\n  let '("+va+", "+vb+") := match rr_ with Ok v => (v, None) | Err e => ("+fnZero(ec.results[0])+", Some e) | Panic => ("+fnZero(ec.results[0])+", None) end in\n  "+next()+" end")
 					}
 					t.unsupported(x, "two-value external call with this signature")
+				}
+				if ec.rich == "optpair" {
+					va, vb := bind(a, ec.results[0]), bind(b, "errv")
+					return t.wrap(mark, "match "+ec.term+" with None => Crash | Some ("+va+", "+vb+") =>\n  "+next()+" end")
 				}
 				if ec.lensArg != nil {
 					t.fresh++
@@ -4709,7 +4759,7 @@ func constTable(p *pkgInfo, vs *ast.ValueSpec, i int) (string, bool) {
 
 // the functions translated into Pure_gen.v ("Recv.Method" for methods)
 var pureFuncs = []string{"cast", "escapeChars", "parsePath", "getSubKeyMap", "hasSubKeys", "Map.PathForKeyShortest", "valuesForKeyPath", "hasKey", "hasKeyPath", "getLeafNodes",
-	"Map.ValuesForKey", "Map.oldValuesForPath", "Map.ValuesForPath", "Map.LeafNodes", "getJson", "NewMapJsonReader", "NewMapJsonReaderRaw", "Map.Exists", "Map.ValueForPath", "Map.ValueForKey", "Map.LeafPaths", "Map.LeafValues", "valuesForArray", "Map.PathsForKey", "byteReader.ReadByte", "teeReader.ReadByte", "Maps.JsonString", "Maps.JsonStringIndent", "Maps.XmlString", "Maps.XmlStringIndent", "BeautifyXml", "Map.Copy", "Map.Json", "Map.Root", "NewMapXml", "NewMapXmlSeq", "lastKey", "xmlToMapParser", "xmlSeqToMapParser", "Map.JsonWriter", "Map.JsonWriterRaw", "Map.JsonIndentWriter", "Map.JsonIndentWriterRaw", "Map.XmlWriter", "Map.XmlIndentWriter", "MapSeq.XmlWriter", "MapSeq.XmlIndentWriter", "mapToXmlSeqIndent", "pretty.Indent", "pretty.Outdent", "elemListSeq.Less", "marshalMapToXmlIndent", "attrList.Less", "elemList.Less", "NewMapJson", "updateValueForKey", "updateValue", "updateValuesForKeyPath", "Map.UpdateValuesForPath", "prevValueByPath", "remove", "renameKey", "Map.Remove", "Map.RenameKey", "parentPath", "Map.SetValueForPath", "Map.Xml", "Map.XmlIndent", "MapSeq.Xml", "MapSeq.XmlIndent"}
+	"Map.ValuesForKey", "Map.oldValuesForPath", "Map.ValuesForPath", "Map.LeafNodes", "getJson", "NewMapJsonReader", "NewMapJsonReaderRaw", "Map.Exists", "Map.ValueForPath", "Map.ValueForKey", "Map.LeafPaths", "Map.LeafValues", "valuesForArray", "Map.PathsForKey", "byteReader.ReadByte", "teeReader.ReadByte", "Maps.JsonString", "Maps.JsonStringIndent", "Maps.XmlString", "Maps.XmlStringIndent", "BeautifyXml", "Map.Copy", "Map.Json", "Map.Root", "NewMapXml", "NewMapXmlSeq", "lastKey", "xmlToMapParser", "xmlSeqToMapParser", "Map.JsonWriter", "Map.JsonWriterRaw", "Map.JsonIndentWriter", "Map.JsonIndentWriterRaw", "Map.XmlWriter", "Map.XmlIndentWriter", "MapSeq.XmlWriter", "MapSeq.XmlIndentWriter", "mapToXmlSeqIndent", "pretty.Indent", "pretty.Outdent", "elemListSeq.Less", "marshalMapToXmlIndent", "attrList.Less", "elemList.Less", "NewMapJson", "updateValueForKey", "updateValue", "updateValuesForKeyPath", "Map.UpdateValuesForPath", "prevValueByPath", "remove", "renameKey", "Map.Remove", "Map.RenameKey", "parentPath", "Map.SetValueForPath", "Map.Xml", "Map.XmlIndent", "MapSeq.Xml", "MapSeq.XmlIndent", "AnyXml", "AnyXmlIndent"}
 
 // joinMode: functions translated in join mode (see branching): the statements after an if / switch are translated
 // once instead of into every branch.  The continuation-passing translation of the other functions is kept as it is
@@ -4860,6 +4910,7 @@ func genPure(p *pkgInfo) string {
 			t := &fnTr{p: p, vars: byObj, fn: fn, locals: map[types.Object]*lvar{}, used: map[string]int{}, tables: tables,
 				externs: &externs, structs: structs, escaped: map[types.Object]bool{}}
 			t.sumJoin, t.curS, t.lenient = joinMode[qname], "unit", lenientFuncs[qname]
+			t.qname = qname
 			t.io, t.wb, t.aliases = ioInfo, writeBackFuncs[qname], aliasGraph(p, fn)
 			if fo, ok := p.info.Defs[fn.Name].(*types.Func); ok && t.wb && ioInfo.lens[fo] {
 				t.lensRet = true
